@@ -546,6 +546,8 @@ def run_history(rnd, nops, b):
             else:
                 continue
         except Exception as e:  # the operation was valid by construction
+            if not harness.from_repo(e):
+                raise         # an error of the harness/model is never a violation
             import traceback
             return ('exception/%s/%s' % (op, type(e).__name__),
                     {'op': entry, 'error': repr(e), 'trace': traceback.format_exc()[-800:],
